@@ -13,7 +13,11 @@ the raw header list and the body bytes.  The verifier does what a strict S3 endp
      canonical query = for every `name=value` of the raw query: UriEncode(decode(name)) '=' UriEncode(decode(value)),
                        sorted by encoded name (then value), joined by '&'.  The query is form-decoded the way S3 does
                        ('+' is a space); the literal reading of '+' is evaluated as well (see `plus_literal_ok`);
-     canonical headers = for every signed header, lower-case name ':' trimmed value '\n', names sorted;
+     canonical headers = for every signed header, lower-case name ':' trimmed value '\n', names sorted — the values are the
+                       bytes of the headers RECEIVED; `Host` in particular is taken as it is on the wire (no lower-casing, no
+                       port normalisation: a client must sign the spelling it sends, whoever wrote that header — the client
+                       code or its HTTP library).  Whether that header names this endpoint is the caller's question
+                       (harness/props/c16.py `host_names_endpoint`), not part of the signature;
      hashed payload  = the value of x-amz-content-sha256;
   3. string to sign  = 'AWS4-HMAC-SHA256' \n x-amz-date \n scope \n hex(sha256(canonical request));
   4. signing key     = HMAC chain over 'AWS4'+secret, date, region, service, 'aws4_request';
